@@ -229,32 +229,12 @@ Proof.
   apply has_prefix_len in E. simpl in E. destruct (gslice_from_ok chk 2 E) as [v Hv]. rewrite Hv. split; discriminate.
 Qed.
 
-Lemma gindex_nonempty a s i : i = O -> gindex (String a s) i = Ok a.
-Proof. intros ->. reflexivity. Qed.
-Lemma install_hidden_test_partial started name : name <> "" -> Returns (install_hidden_test started name).
-Proof.
-  intro H. unfold install_hidden_test. destruct started; [split; discriminate|].
-  destruct name as [|a s]; [congruence|]. simpl. split; discriminate.
-Qed.
-Lemma install_hidden_test_refuted : install_hidden_test false "" = Panic.
-Proof. reflexivity. Qed.
-Lemma standardize_path_partial p : p <> "" -> Returns (standardize_path p).
-Proof.
-  intro H. unfold standardize_path. destruct p as [|a s]; [congruence|]. simpl.
-  destruct (Ascii.eqb a "/"); [|split; discriminate].
-  unfold gslice_from. simpl. split; discriminate.
-Qed.
-Lemma standardize_path_refuted : standardize_path "" = Panic.
-Proof. reflexivity. Qed.
-Lemma make_groups_partial b : (0 <= b <= 35184372088832)%Z -> Returns (make_groups b).
-Proof.
-  intro H. unfold make_groups.
-  assert ((b <? 0)%Z = false) as -> by (apply Z.ltb_ge; lia).
-  assert ((35184372088832 <? b)%Z = false) as -> by (apply Z.ltb_ge; lia).
-  split; discriminate.
-Qed.
-Lemma make_groups_refuted : make_groups (-1) = Panic.
-Proof. reflexivity. Qed.
+Lemma install_hidden_test_returns started name : Returns (install_hidden_test started name).
+Proof. unfold install_hidden_test. destruct started; split; discriminate. Qed.
+Lemma standardize_path_returns p : Returns (standardize_path p).
+Proof. unfold standardize_path. split; discriminate. Qed.
+Lemma make_groups_returns b : Returns (make_groups b).
+Proof. unfold make_groups. destruct (b <? 0)%Z; split; discriminate. Qed.
 
 (* sortTarHeaders: a directory entry whose cleaned name is "." is its own child:
    no amount of fuel suffices (the Go code recurses until the stack overflows) *)
